@@ -566,5 +566,5 @@ def parts(tier):
     q = tier == "quick"
     return [
         {"name": "grid", "kind": "enum", "iter": _grid_iter, "exhaustive": True},
-        {"name": "random", "kind": "hypothesis", "strategy": s_case, "examples": 1600 if q else 16 * 600},
+        {"name": "random", "kind": "hypothesis", "strategy": s_case, "examples": 1600 if q else 16 * 4000},
     ]
